@@ -9,6 +9,7 @@
 
 extern "C" {
 #include <soundswallower/alignment.h>
+#include <soundswallower/ckd_alloc.h>
 size_t __sanitizer_get_allocated_size(const volatile void *p);
 }
 
@@ -146,6 +147,7 @@ struct UttPlan {
   bool useFloat = false;
   bool fullUtt = false;
   int queryMask = 0; // which partial queries are made at query points
+  bool recordPartials = false; // partial results become part of the record
 };
 
 std::string runUtterance(decoder_t *d, const std::vector<int16_t> &audio, const UttPlan &p, bool withAlignment, Ctx *ctx) {
@@ -172,7 +174,8 @@ std::string runUtterance(decoder_t *d, const std::vector<int16_t> &audio, const 
     returned += r;
     if (ch.queryAfter) {
       if (ctx) ctx->label("variant:partial-queries");
-      if (p.queryMask & 1) observe(d);
+      if (p.recordPartials) rec << "partial@" << pos << ": " << observe(d).str() << " | ";
+      else if (p.queryMask & 1) observe(d);
       if (p.queryMask & 2) {
         lattice_t *dag = decoder_lattice(d);
         if (dag && (p.queryMask & 4)) {
@@ -622,12 +625,14 @@ Verdict oracleC12(decoder_t *d, lattice_t *dag, bool final, Ctx &ctx) {
 
 
 Verdict oracleC14(decoder_t *d, int frate, const Obs &o, double start, int level, bool final, Ctx &ctx);
+Verdict oracleC04(decoder_t *d, const Obs &o, bool final, Ctx &ctx);
 std::string fmt3(double x);
 
 Verdict judge(decoder_t *d, const Case &k, const Obs &o, bool final, long T, const fsa::Fsa &gplus, const fsa::Fsa &gEps, int which, Ctx &ctx) {
   switch (which) {
   case 0: return oracleC01(d, k, o, final, gplus, ctx);
   case 1: return oracleC03(d, o, final, T, ctx);
+  case 5: return oracleC04(d, o, final, ctx);
   case 4: return oracleC14(d, gFrate[k.decIdx], o, k.jsonStart, k.jsonLevel, final, ctx);
   default: {
     lattice_t *dag = decoder_lattice(d);
@@ -750,8 +755,136 @@ Verdict oracleC14(decoder_t *d, int frate, const Obs &o, double start, int level
   return Verdict::pass();
 }
 
+
+// ------------------------------------------- C04: alignment hierarchy (part 1)
+struct AEnt {
+  std::string name;
+  int start, dur, score;
+  std::vector<AEnt> kids;
+};
+
+std::vector<AEnt> readAlignment(alignment_t *al) {
+  std::vector<AEnt> words;
+  for (alignment_iter_t *it = alignment_words(al); it; it = alignment_iter_next(it)) {
+    AEnt w;
+    w.name = alignment_iter_name(it);
+    w.score = alignment_iter_seg(it, &w.start, &w.dur);
+    for (alignment_iter_t *p = alignment_iter_children(it); p; p = alignment_iter_next(p)) {
+      AEnt ph;
+      ph.name = alignment_iter_name(p);
+      ph.score = alignment_iter_seg(p, &ph.start, &ph.dur);
+      for (alignment_iter_t *q = alignment_iter_children(p); q; q = alignment_iter_next(q)) {
+        AEnt st;
+        st.name = alignment_iter_name(q);
+        st.score = alignment_iter_seg(q, &st.start, &st.dur);
+        ph.kids.push_back(st);
+      }
+      w.kids.push_back(ph);
+    }
+    words.push_back(w);
+  }
+  return words;
+}
+
+std::string alignStr(const std::vector<AEnt> &ws) {
+  std::ostringstream o;
+  for (auto &w : ws) {
+    o << "{" << w.name << " " << w.start << "+" << w.dur << " s" << w.score << ":";
+    for (auto &p : w.kids) {
+      o << " (" << p.name << " " << p.start << "+" << p.dur << " s" << p.score << ":";
+      for (auto &s : p.kids) o << " [" << s.start << "+" << s.dur << " s" << s.score << "]";
+      o << ")";
+    }
+    o << "} ";
+  }
+  return o.str();
+}
+
+Verdict checkLevel(const std::vector<AEnt> &es, int start, int total, const std::string &what, const std::string &dump) {
+  int cur = start;
+  for (size_t i = 0; i < es.size(); ++i) {
+    PBT_CHECK(es[i].start == cur, "alignment-not-contiguous", what << " " << i << " (" << es[i].name << ") starts at " << es[i].start << ", expected " << cur << " in " << dump);
+    PBT_CHECK(es[i].dur > 0, "alignment-nonpositive-duration", what << " " << i << " (" << es[i].name << ") has duration " << es[i].dur << " in " << dump);
+    cur += es[i].dur;
+  }
+  if (total >= 0) PBT_CHECK(cur == start + total, "children-do-not-partition-parent", what << "s cover " << cur - start << " frames of a parent spanning " << total << " in " << dump);
+  return Verdict::pass();
+}
+
+Verdict oracleC04(decoder_t *d, const Obs &o, bool final, Ctx &ctx) {
+  const char *when = final ? "final" : "partial";
+  alignment_t *al = decoder_alignment(d);
+  if (!al) {
+    ctx.label(final ? "alignment:NULL(final)" : "alignment:NULL(partial)");
+    // a failed call must not be followed by a stale object
+    PBT_CHECK(decoder_alignment(d) == NULL, "stale-alignment-after-failure", when << ": decoder_alignment returned NULL, then non-NULL without new audio");
+    return Verdict::pass();
+  }
+  std::vector<AEnt> ws = readAlignment(al);
+  std::string dump = alignStr(ws);
+  {
+    // asking again without new audio gives the same content (the statement does not promise the same object)
+    alignment_t *al2 = decoder_alignment(d);
+    PBT_CHECK(al2 != NULL && alignStr(readAlignment(al2)) == dump, "alignment-not-repeatable", when << ": asking twice without new audio gave different alignments:\n first : " << dump << "\n second: " << (al2 ? alignStr(readAlignment(al2)) : std::string("NULL")));
+    al = al2;
+  }
+  // 1. words == first-pass segmentation restricted to dictionary words
+  std::vector<Seg> dictSegs;
+  for (auto &s : o.segs)
+    if (dict_wordid(d->dict, s.word.c_str()) != BAD_S3WID) dictSegs.push_back(s);
+  PBT_CHECK(ws.size() == dictSegs.size(), "alignment-words-vs-segmentation", when << ": alignment has " << ws.size() << " words, the first-pass segmentation " << dictSegs.size() << " dictionary words: " << o.str() << " vs " << dump);
+  for (size_t i = 0; i < ws.size(); ++i) {
+    PBT_CHECK(ws[i].name == dictSegs[i].word, "alignment-words-vs-segmentation", when << ": word " << i << " is '" << ws[i].name << "', first pass says '" << dictSegs[i].word << "'");
+    PBT_CHECK(ws[i].start == dictSegs[i].sf && ws[i].dur == dictSegs[i].ef - dictSegs[i].sf + 1, "alignment-boundaries-vs-segmentation", when << ": word " << i << " (" << ws[i].name << ") " << ws[i].start << "+" << ws[i].dur << " but first pass " << dictSegs[i].sf << "-" << dictSegs[i].ef << " in " << dump);
+  }
+  // 2. phones == dictionary pronunciation, states == emitting states of the model
+  int nEmit = bin_mdef_n_emit_state(d->acmod->mdef);
+  for (auto &w : ws) {
+    int32 wid = dict_wordid(d->dict, w.name.c_str());
+    PBT_CHECK((int)w.kids.size() == dict_pronlen(d->dict, wid), "alignment-phones-vs-dictionary", when << ": '" << w.name << "' has " << w.kids.size() << " phones, its pronunciation " << dict_pronlen(d->dict, wid));
+    for (size_t j = 0; j < w.kids.size(); ++j) {
+      PBT_CHECK(w.kids[j].name == dict_ciphone_str(d->dict, wid, (int)j), "alignment-phones-vs-dictionary", when << ": phone " << j << " of '" << w.name << "' is " << w.kids[j].name << ", dictionary says " << dict_ciphone_str(d->dict, wid, (int)j));
+      PBT_CHECK((int)w.kids[j].kids.size() == nEmit, "alignment-states-vs-model", when << ": phone " << w.kids[j].name << " has " << w.kids[j].kids.size() << " states, the model " << nEmit);
+    }
+  }
+  // 3. contiguity from frame 0 at every level; children partition their parent
+  Verdict v = checkLevel(ws, 0, -1, "word", dump);
+  if (!v.ok) return v;
+  for (auto &w : ws) {
+    v = checkLevel(w.kids, w.start, w.dur, "phone of " + w.name, dump);
+    if (!v.ok) return v;
+    for (auto &p : w.kids) {
+      v = checkLevel(p.kids, p.start, p.dur, "state of " + p.name, dump);
+      if (!v.ok) return v;
+    }
+  }
+  // 4. parent score == sum of children's
+  for (auto &w : ws) {
+    long ps = 0;
+    for (auto &p : w.kids) {
+      long ss = 0;
+      for (auto &s : p.kids) ss += s.score;
+      PBT_CHECK(ss == p.score, "parent-score-not-sum-of-children", when << ": phone " << p.name << " of '" << w.name << "' scores " << p.score << ", its states sum to " << ss << " in " << dump);
+      ps += p.score;
+    }
+    PBT_CHECK(ps == w.score, "parent-score-not-sum-of-children", when << ": word '" << w.name << "' scores " << w.score << ", its phones sum to " << ps << " in " << dump);
+  }
+  int real = 0;
+  bool fillerBetween = false, alt = false;
+  for (size_t i = 0; i < ws.size(); ++i) {
+    if (!isFillerWord(d, ws[i].name)) ++real;
+    else if (i > 0 && i + 1 < ws.size()) fillerBetween = true;
+    if (baseForm(ws[i].name) != ws[i].name) alt = true;
+  }
+  ctx.labelIf(fillerBetween, "alignment:filler-between-words");
+  ctx.labelIf(alt, "alignment:alternate-chosen");
+  ctx.label(final ? "alignment:final" : "alignment:partial");
+  if (real >= 2) ctx.nontrivial = true;
+  return Verdict::pass();
+}
+
 // --------------------------------------------------------------------- runner
-enum Which { W_C01 = 0, W_C03 = 1, W_C11 = 2, W_C12 = 3, W_C14 = 4 };
+enum Which { W_C01 = 0, W_C03 = 1, W_C11 = 2, W_C12 = 3, W_C14 = 4, W_C04 = 5 };
 
 Verdict runCase(Choices &c, Ctx &ctx, Which which) {
   Case k = genCase(c, which == W_C01 ? 25 : which == W_C03 ? 15 : 20, which == W_C14);
@@ -925,7 +1058,8 @@ UttSpec genUtt(Choices &c, bool target) {
     u.plan.fullUtt = true;
     u.plan.chunks = {{(size_t)N, false, false}};
   } else {
-    u.plan.chunks = genChunks(c, (size_t)N, false, target ? 0 : 30);
+    u.plan.chunks = genChunks(c, (size_t)N, false, target ? 20 : 30);
+    u.plan.recordPartials = target;
     if (mode == 1)
       for (size_t i = 0; i + 1 < u.plan.chunks.size(); ++i) u.plan.chunks[i].noSearch = true;
   }
@@ -1078,11 +1212,283 @@ Verdict propC08(Choices &c, Ctx &ctx) {
   return Verdict::pass();
 }
 
+
+// ------------------------------------------- C16: dictionary additions (model)
+struct DictModel {
+  struct E {
+    std::string word;
+    std::vector<std::string> phones;
+    int base;
+  };
+  std::vector<E> words;
+  std::map<std::string, int> byName;
+};
+
+std::vector<std::string> splitWs(const std::string &s) {
+  std::vector<std::string> v;
+  std::istringstream is(s);
+  std::string t;
+  while (is >> t) v.push_back(t);
+  return v;
+}
+
+DictModel snapshotDict(decoder_t *d) {
+  DictModel m;
+  dict_t *dict = d->dict;
+  for (int w = 0; w < dict_size(dict); ++w) {
+    DictModel::E e;
+    e.word = dict_wordstr(dict, w);
+    for (int p = 0; p < dict_pronlen(dict, w); ++p) e.phones.push_back(dict_ciphone_str(dict, w, p));
+    e.base = dict_basewid(dict, w);
+    m.byName[e.word] = w;
+    m.words.push_back(e);
+  }
+  return m;
+}
+
+std::string modelBaseName(const std::string &w) {
+  size_t len = w.size();
+  if (len >= 1 && w[len - 1] == ')') {
+    long i = (long)len - 2;
+    for (; i > 0 && w[(size_t)i] != '('; --i)
+      ;
+    if (i > 0) return w.substr(0, (size_t)i);
+  }
+  return "";
+}
+
+Verdict compareDict(decoder_t *d, const DictModel &m, const std::vector<int> &touched, bool full, const std::string &after) {
+  dict_t *dict = d->dict;
+  PBT_CHECK((size_t)dict_size(dict) == m.words.size(), "dictionary-size", after << ": dictionary holds " << dict_size(dict) << " words, model " << m.words.size());
+  auto checkWord = [&](int w) -> Verdict {
+    const DictModel::E &e = m.words[(size_t)w];
+    PBT_CHECK(std::string(dict_wordstr(dict, w)) == e.word, "word-identity-changed", after << ": word id " << w << " is now '" << dict_wordstr(dict, w) << "', was '" << e.word << "'");
+    PBT_CHECK(dict_basewid(dict, w) == e.base, "base-word-changed", after << ": '" << e.word << "' has base id " << dict_basewid(dict, w) << ", model " << e.base);
+    char *ph = decoder_lookup_word(d, e.word.c_str());
+    std::string want;
+    for (size_t i = 0; i < e.phones.size(); ++i) want += (i ? " " : "") + e.phones[i];
+    std::string got = ph ? ph : "(NULL)";
+    ckd_free(ph);
+    // the hash table maps a spelling to the id that was registered first for it
+    if (m.byName.at(e.word) == w) PBT_CHECK(got == want, "pronunciation-changed", after << ": lookup of '" << e.word << "' gives '" << got << "', expected '" << want << "'");
+    return Verdict::pass();
+  };
+  if (full)
+    for (size_t w = 0; w < m.words.size(); ++w) {
+      Verdict v = checkWord((int)w);
+      if (!v.ok) return v;
+    }
+  else
+    for (int w : touched) {
+      Verdict v = checkWord(w);
+      if (!v.ok) return v;
+    }
+  // alternate chains: every base word's chain visits exactly its alternates, each once
+  std::map<int, std::set<int>> alts;
+  for (size_t w = 0; w < m.words.size(); ++w)
+    if (m.words[w].base != (int)w) alts[m.words[w].base].insert((int)w);
+  for (size_t w = 0; w < m.words.size(); ++w) {
+    if (m.words[w].base != (int)w) continue;
+    if (!full && !alts.count((int)w)) continue;
+    std::set<int> seen;
+    int guard = 0;
+    for (int a = dict_nextalt(dict, (int)w); a != BAD_S3WID; a = dict_nextalt(dict, a)) {
+      PBT_CHECK(a >= 0 && a < dict_size(dict), "alternate-chain-corrupt", after << ": chain of '" << m.words[w].word << "' points at id " << a << " outside the dictionary");
+      PBT_CHECK(seen.insert(a).second && ++guard < 100000, "alternate-chain-corrupt", after << ": chain of '" << m.words[w].word << "' visits id " << a << " twice");
+      PBT_CHECK(alts.count((int)w) && alts[(int)w].count(a), "alternate-chain-corrupt", after << ": chain of '" << m.words[w].word << "' contains '" << m.words[(size_t)a].word << "', which is not one of its alternates");
+    }
+    size_t want = alts.count((int)w) ? alts[(int)w].size() : 0;
+    PBT_CHECK(seen.size() == want, "alternate-chain-corrupt", after << ": chain of '" << m.words[w].word << "' has " << seen.size() << " alternates, model " << want);
+  }
+  return Verdict::pass();
+}
+
+Verdict propC16(Choices &c, Ctx &ctx) {
+  decoder_t *d = gDec[0];
+  SearchCfg sc;
+  sc.beam = sc.pbeam = sc.wbeam = 0;
+  applySearchCfg(d, sc);
+  DictModel m = snapshotDict(d);
+  static const char *ONE[] = {"B", "D", "F", "G", "K", "L", "M", "N", "P", "R", "S", "T", "V", "W", "Y", "Z"};
+  static const char *PH[] = {"AA", "AE", "AH", "AO", "AW", "AY", "B", "CH", "D", "DH", "EH", "ER", "EY", "F", "G", "HH", "IH", "IY", "JH", "K", "L", "M", "N", "NG", "OW", "OY", "P", "R", "S", "SH", "T", "TH", "UH", "UW", "V", "W", "Y", "Z", "ZH"};
+  int nops = (int)c.range(1, 22);
+  std::ostringstream d_;
+  d_ << "ops:";
+  std::vector<std::string> added; // accepted new spellings
+  bool sawAccepted = false, sawRejected = false, sawUse = false;
+  int counter = 0;
+  if (decoder_set_align_text(d, "go") != 0) return Verdict::fail("install-refused", "baseline align text refused");
+  for (int op = 0; op < nops; ++op) {
+    size_t kind = c.weighted({12, 3, 3, 1});
+    if (kind == 0 || kind == 3) {
+      // ---- add ----
+      std::string word;
+      std::string klass;
+      size_t wk = c.weighted({8, 4, 2, 2, 2, 1, 1, 1, 2, 1});
+      switch (wk) {
+      case 0: word = "zz" + std::to_string(counter++); klass = "new"; break;
+      case 1: { // alternate with base present
+        const std::string &b = (!added.empty() && c.coin(60)) ? added[(size_t)c.range(0, (int64_t)added.size() - 1)] : m.words[(size_t)c.range(0, (int64_t)m.words.size() - 1)].word;
+        word = (modelBaseName(b).empty() ? b : modelBaseName(b)) + "(" + std::to_string(c.range(2, 4)) + ")";
+        // alternates of filler words are a corner the statement does not cover (whether they are
+        // reported at all depends on how the grammar got them): use a real word instead
+        if (word[0] == '<' || word[0] == '[') word = "go(" + std::to_string(c.range(2, 4)) + ")";
+        klass = "alternate";
+        break;
+      }
+      case 2: word = "nobase" + std::to_string(counter++) + "(2)"; klass = "alternate-without-base"; break;
+      case 3: word = m.words[(size_t)c.range(0, (int64_t)m.words.size() - 1)].word; klass = "duplicate"; break;
+      case 4: { // duplicate of an alternate
+        std::vector<int> al;
+        for (size_t w = 0; w < m.words.size(); ++w)
+          if (m.words[w].base != (int)w) al.push_back((int)w);
+        word = al.empty() ? "the(2)" : m.words[(size_t)al[(size_t)c.range(0, (int64_t)al.size() - 1)]].word;
+        klass = "duplicate-alternate";
+        break;
+      }
+      case 5: word = ""; klass = "empty-word"; break;
+      case 6: word = std::string(1, "qxj"[c.range(0, 2)]); klass = "one-char"; break;
+      case 7: word = std::string(300, 'w') + std::to_string(counter++); klass = "long-word"; break;
+      case 8: word = std::string((const char *[]){"a(b", "a)(", "(x)", "y()", "go(", ")"}[c.range(0, 5)]) + (c.coin(50) ? std::to_string(counter++) : ""); klass = "odd-parens"; break;
+      default: word = "GO"; klass = "case-variant"; break;
+      }
+      std::string pron, pklass;
+      size_t pk = c.weighted({3, 3, 6, 1, 4, 3, 3, 1, 2, 1});
+      auto rnd = [&]() { return std::string(PH[c.range(0, 38)]); };
+      auto one = [&]() { return std::string(ONE[c.range(0, 15)]); };
+      switch (pk) {
+      case 0: pron = rnd(); pklass = "1-phone"; break;
+      case 1: pron = rnd() + " " + rnd(); pklass = "2-phones"; break;
+      case 2: {
+        int n = (int)c.range(3, 6);
+        for (int i = 0; i < n; ++i) pron += (i ? " " : "") + rnd();
+        pklass = "3-6-phones";
+        break;
+      }
+      case 3:
+        for (int i = 0; i < 30; ++i) pron += (i ? " " : "") + rnd();
+        pklass = "30-phones";
+        break;
+      case 4: {
+        int n = (int)c.range(1, 6);
+        for (int i = 0; i < n; ++i) pron += (i ? " " : "") + one();
+        pklass = "one-letter-phones";
+        break;
+      }
+      case 5: pron = (c.coin(50) ? "  " : "\t") + rnd() + (c.coin(50) ? "   " : " \t ") + one() + (c.coin(50) ? " " : "\t\t"); pklass = "odd-blanks"; break;
+      case 6: {
+        size_t where = (size_t)c.range(0, 2);
+        std::vector<std::string> ps = {rnd(), rnd(), rnd()};
+        ps[where] = (const char *[]){"QQ", "XYZ", "A", "SILENCE"}[c.range(0, 3)];
+        pron = ps[0] + " " + ps[1] + " " + ps[2];
+        pklass = "unknown-phone";
+        break;
+      }
+      case 7: pron = "ah n"; pklass = "wrong-case-phone"; break;
+      case 8: pron = ""; pklass = "empty-pron"; break;
+      default: pron = c.coin(50) ? "   " : " \t "; pklass = "blank-pron"; break;
+      }
+      int update = c.coin(60) ? 1 : 0;
+      int burst = (kind == 3) ? 4200 : 1;
+      for (int b = 0; b < burst; ++b) {
+        std::string w = burst > 1 ? "burst" + std::to_string(counter++) : word;
+        d_ << " add('" << (w.size() > 20 ? w.substr(0, 20) + "..." : w) << "','" << pron << "'," << update << ")";
+        // model verdict
+        std::vector<std::string> ph = splitWs(pron);
+        bool phonesOk = !ph.empty();
+        for (auto &x : ph) {
+          bool known = false;
+          for (auto y : PH) known = known || x == y;
+          known = known || x == "SIL";
+          phonesOk = phonesOk && known;
+        }
+        std::string base = modelBaseName(w);
+        bool accept = phonesOk && !w.empty() && !m.byName.count(w) && (base.empty() || m.byName.count(base));
+        if (burst == 1) ctx.describe(d_.str());
+        int before = dict_size(d->dict);
+        int rc = decoder_add_word(d, w.c_str(), pron.c_str(), burst > 1 ? 0 : update);
+        if (accept) {
+          sawAccepted = true;
+          if (rc != before) return Verdict::fail("valid-addition-refused", Msg() << "add('" << w << "','" << pron << "') returned " << rc << ", expected new id " << before << " [" << klass << "/" << pklass << "]");
+          DictModel::E e;
+          e.word = w;
+          e.phones = ph;
+          e.base = base.empty() ? before : m.words[(size_t)m.byName[base]].base;
+          m.byName[w] = before;
+          m.words.push_back(e);
+          if (burst == 1) added.push_back(w);
+        } else {
+          sawRejected = true;
+          std::string why = w.empty() ? "empty-word" : !phonesOk ? pklass : m.byName.count(w) ? klass : "alternate-without-base";
+          if (rc >= 0) return Verdict::fail("invalid-addition-accepted:" + why, Msg() << "add('" << w << "','" << pron << "') returned " << rc << " but must be refused (" << why << ")");
+        }
+        if (burst == 1) ctx.label("add:" + klass + "/" + pklass);
+      }
+      if (burst > 1) ctx.label("add:burst-past-4096");
+      std::vector<int> touched;
+      touched.push_back((int)m.words.size() - 1);
+      for (int t = 0; t < 6; ++t) touched.push_back((int)c.range(0, (int64_t)m.words.size() - 1));
+      Verdict v = compareDict(d, m, touched, false, "after add('" + (word.size() > 30 ? word.substr(0, 30) + "..." : word) + "')");
+      if (!v.ok) return v;
+    } else if (kind == 1) {
+      // ---- lookup ----
+      std::string w = c.coin(70) ? m.words[(size_t)c.range(0, (int64_t)m.words.size() - 1)].word : "unknown" + std::to_string(c.range(0, 9));
+      d_ << " lookup('" << (w.size() > 20 ? w.substr(0, 20) + "..." : w) << "')";
+      char *ph = decoder_lookup_word(d, w.c_str());
+      bool known = m.byName.count(w) > 0;
+      bool ok = known == (ph != NULL);
+      ckd_free(ph);
+      PBT_CHECK(ok, "lookup", "lookup of " << (known ? "known" : "unknown") << " word '" << w << "' returned " << (ph ? "a pronunciation" : "NULL"));
+    } else if (!added.empty()) {
+      // ---- use a newly added word at once: alignment text, then decode ----
+      const std::string &w = added[(size_t)c.range(0, (int64_t)added.size() - 1)];
+      bool ws = false;
+      for (char ch : w) ws = ws || isspace((unsigned char)ch);
+      if (ws) continue;
+      std::string text = c.coin(50) ? w : "go " + w;
+      d_ << " align('" << (text.size() > 30 ? text.substr(0, 30) + "..." : text) << "')";
+      int rc = decoder_set_align_text(d, text.c_str());
+      PBT_CHECK(rc == 0, "new-word-not-usable", "decoder_set_align_text('" << text << "') refused a word that was just added (rc " << rc << ")");
+      sawUse = true;
+      size_t N = (size_t)c.range(8000, 20000);
+      std::string ad;
+      std::vector<int16_t> au = audio::recipe(c, N, ad, true, 20);
+      UttPlan p;
+      p.chunks = {{N, false, false}};
+      if (decoder_start_utt(d) != 0) return Verdict::fail("start-utt-failed", "start_utt failed after additions");
+      int16_t *blk = (int16_t *)malloc(N * 2);
+      memcpy(blk, au.data(), N * 2);
+      int r = decoder_process_int16(d, blk, N, 0, 0);
+      free(blk);
+      PBT_CHECK(r >= 0, "process-error", "process returned " << r);
+      decoder_end_utt(d);
+      Obs o = observe(d);
+      if (o.hasHyp) {
+        // alternates are reported under the base spelling
+        std::string wantW = modelBaseName(w).empty() ? w : m.words[(size_t)m.words[(size_t)m.byName[w]].base].word;
+        if (isFillerWord(d, wantW)) wantW = ""; // alternates of filler words are fillers: never in the hypothesis
+        std::string want = text == w ? wantW : (wantW.empty() ? "go" : "go " + wantW);
+        PBT_CHECK(o.hyp == want, "new-word-misreported", "forced alignment of '" << text << "' reported '" << o.hyp << "', expected '" << want << "'");
+        ctx.label("use:decoded-new-word");
+      } else
+        ctx.label("use:no-hypothesis");
+    }
+  }
+  ctx.describe(d_.str());
+  Verdict v = compareDict(d, m, {}, true, "at the end of the history");
+  if (!v.ok) return v;
+  ctx.labelIf(sawRejected, "history:has-rejected-addition");
+  ctx.labelIf(sawUse, "history:new-word-used");
+  ctx.nontrivial = sawAccepted && sawRejected;
+  return Verdict::pass();
+}
+
 Verdict propC01(Choices &c, Ctx &ctx) { return runCase(c, ctx, W_C01); }
 Verdict propC03(Choices &c, Ctx &ctx) { return runCase(c, ctx, W_C03); }
 Verdict propC11(Choices &c, Ctx &ctx) { return runCase(c, ctx, W_C11); }
 Verdict propC12(Choices &c, Ctx &ctx) { return runCase(c, ctx, W_C12); }
 Verdict propC14(Choices &c, Ctx &ctx) { return runCase(c, ctx, W_C14); }
+Verdict propC04(Choices &c, Ctx &ctx) { return runCase(c, ctx, W_C04); }
 
 void initDecode() {
   err_set_loglevel(ERR_FATAL);
@@ -1118,8 +1524,10 @@ const PropDef kProps[] = {
     {"C11", propC11, true, 20000, initDecode},
     {"C12", propC12, true, 20000, initDecode},
     {"C14", propC14, true, 30000, initDecode},
+    {"C04", propC04, true, 30000, initDecode},
     {"C07", propC07, true, 60000, initDecode},
     {"C08", propC08, true, 90000, initDecode},
+    {"C16", propC16, true, 60000, initDecode},
     {nullptr, nullptr, false, 0, nullptr},
 };
 }
